@@ -20,6 +20,9 @@
                               (Y0/Lemmas/SemCanon.lean); `denNZ_of_positive`: implied by positivity when no `Zero()` occurs
                               inside a denominator (`Expr.zfd`).
     * `InRange env σ`         every variable has a value below its cardinality.
+
+  Multi-world joint leaves (children in different worlds, several children on one base variable) are covered by the widened
+  theorems of Props/C10MW.lean (`canon_den_mw`, `canon_total_mw`, `canonical_equal_sound_mw` under `WellScopedW`).
 -/
 import Y0.Lemmas.SemPos
 import Y0.Lemmas.CanonTotal
